@@ -134,7 +134,7 @@ func readParagraphs(p *Prog, text string) ([]*refPara, string) {
 func normValue(v string) string { return strings.TrimSuffix(v, "\n") }
 
 func checkC08(p *Prog, rp *Report) {
-	rp.Explanation = "C08-ROUND: (*Paragraph).WriteTo and (*ParagraphReader).Next are both interpreted abstractly (writer = recording oracle, reader = scripted oracle fed with exactly the text written): for every paragraph of two fields whose values are all sequences of up to 4 lines drawn from {text, empty, indented, blank-only, text with trailing blanks}, with and without a trailing newline, the text written reads back as one paragraph with the same fields in order and the same values up to one trailing newline, and a second write/read cycle changes nothing. C08-NOBLANK: on the same table no written line other than the last is empty or white-space only, and the text ends in exactly one newline. C08-SEP: the encoder writes one blank line before every paragraph but the first; the flag it keeps lives behind pointer receivers on the whole call chain Encode -> encode -> encodeSlice/encodeStruct. an all-empty struct encoded between two others (through NewEncoder / Encode and the reflect model) leaves them two paragraphs. C08-ORDER: the writer walks Order and looks values up by key; no function of package control ranges over a map in an order dependent way."
+	rp.Explanation = "C08-ROUND: (*Paragraph).WriteTo and (*ParagraphReader).Next are both interpreted abstractly (writer = recording oracle, reader = scripted oracle fed with exactly the text written): for every paragraph of two fields whose values are all sequences of up to 4 lines drawn from {text, empty, indented, blank-only, text with trailing blanks, a lone dot, text starting with '#'}, with and without a trailing newline, the text written reads back as one paragraph with the same fields in order and the same values up to one trailing newline, and a second write/read cycle changes nothing. C08-NOBLANK: on the same table no written line other than the last is empty or white-space only, and the text ends in exactly one newline. C08-SEP: the encoder writes one blank line before every paragraph but the first; the flag it keeps lives behind pointer receivers on the whole call chain Encode -> encode -> encodeSlice/encodeStruct. an all-empty struct encoded between two others (through NewEncoder / Encode and the reflect model) leaves them two paragraphs. C08-ORDER: the writer walks Order and looks values up by key; no function of package control ranges over a map in an order dependent way."
 	rp.NotDecided = "values whose first line is empty and that have further lines are outside the reader's value space except as produced by ' .' (see the known finding); Unicode line separators; io.Writer short writes."
 	rp.Trusted = []string{"go/types, go/ssa", "strings.Split/Join/TrimSuffix/TrimSpace, fmt.Sprintf models", "C07 (the reader agrees with the deb822 reference)"}
 
@@ -146,7 +146,7 @@ func checkC08(p *Prog, rp *Report) {
 		return
 	}
 	pos := p.Pos(wt.Pos())
-	atoms := []string{"text", "", "  indented", " ", "trail  ", "."}
+	atoms := []string{"text", "", "  indented", " ", "trail  ", ".", "#805204 closes"}
 	var values []string
 	var gen func(cur []string, n int)
 	gen = func(cur []string, n int) {
@@ -417,6 +417,47 @@ func checkC08(p *Prog, rp *Report) {
 				}
 			}
 			fillProblems(sep, "control.Encoder:empty-struct-between", p.Pos(es.Pos()), problems, "a struct without any non-empty field encoded between two others leaves them separated")
+			// a slice first, then a single struct: three paragraphs
+			problems = nil
+			run2 := newC09Run(p)
+			wid2 := run2.st.alloc(types.Typ[types.Int], OpaqueV{"writer"})
+			ret2, why2 := run2.call(newEnc, IfaceV{T: types.NewPointer(types.Typ[types.Int]), V: Ptr{Obj: wid2}})
+			if tv2, _ := ret2.(*TupleV); why2 != "" || tv2 == nil || encode == nil {
+				problems = append(problems, "undecided: NewEncoder: "+why2)
+			} else {
+				arr := &ArrayV{E: []Val{mkStruct(t, map[string]Val{"A": "1"}), mkStruct(t, map[string]Val{"A": "2"})}}
+				aid := run2.st.alloc(types.NewArray(t, 2), arr)
+				slT := types.NewSlice(t)
+				sid := run2.st.alloc(slT, SliceV{Obj: aid, Len_: 2, Cap: 2})
+				calls := []Val{IfaceV{T: types.NewPointer(slT), V: Ptr{Obj: sid}}, IfaceV{T: types.NewPointer(t), V: Ptr{Obj: run2.st.alloc(t, mkStruct(t, map[string]Val{"A": "3"}))}}, IfaceV{T: types.NewPointer(slT), V: Ptr{Obj: sid}}}
+				for _, arg := range calls {
+					if r, why := run2.call(encode, tv2.E[0], arg); why != "" {
+						problems = append(problems, "undecided: Encode: "+why)
+						break
+					} else if _, ok := r.(nilV); !ok {
+						problems = append(problems, "Encode of a probe value fails")
+					}
+				}
+				if len(problems) == 0 {
+					text := run2.written.String()
+					n := 0
+					lines := splitLines(text)
+					for pos := 0; pos < len(lines); {
+						para, err, next := refNext(lines, pos)
+						if err != "" {
+							break
+						}
+						if len(para.order) > 0 {
+							n++
+						}
+						pos = next
+					}
+					if n != 5 {
+						problems = append(problems, fmt.Sprintf("Encode([A:1, A:2]), Encode(A:3), Encode([A:1, A:2]) writes %q, which reads back as %d paragraphs instead of 5", text, n))
+					}
+				}
+			}
+			fillProblems(sep, "control.Encoder:slice-then-struct", p.Pos(es.Pos()), problems, "paragraphs written by Encode of a slice and by later Encode calls are all separated")
 		}
 		// (4) pointer receivers along the chain
 		ms := p.SSA.MethodSets.MethodSet(types.NewPointer(encT))
